@@ -33,7 +33,7 @@ def run(ctx):
     cl = codec.Classes()
     cl.check_driver()
     thorough = ctx.tier == "thorough"
-    idxs = codec.choose_classes(len(cl), rng, None if thorough else 420, ctx.seed + 1)
+    idxs = codec.choose_classes(len(cl), rng, None if thorough else 420, ctx.seed + 1, cl)
     per = 24 if thorough else 6
     insts = codec.gen_instances(cl, idxs, per, rng)
     lines, meta = [], []
